@@ -331,6 +331,31 @@ class RecheckCheck:
             gs.insert(0, {"scale": "R", "B": REAL_B, "P": 16384, "shape": sh,
                           "sizes_list": [v], "cids": cids, "seed": seed,
                           "tier": tier, "maxdmg": 1, "allcli": True})
+        # contents with all-zero regions (absent data is read as zeros: an
+        # absent all-zero piece still verifies); C04 is judged only where the
+        # reference says the damage is visible
+        for cids in (["ztail", "ztailB"], ["zero", "zhead"], ["zhead", "zero"]):
+            for P in ((4, 8) if quick else (2, 4, 8)):
+                for sh in ("S1", "D2n"):
+                    n = world.nfiles(sh)
+                    top = 2 * P + 1 if n == 1 else P + 2
+                    alpha = list(range(0, top + 1))
+                    for gg in e1.size_groups(sh, alpha):
+                        gs.insert(0, {"scale": "S", "B": 2, "P": P,
+                                      "shape": sh, "alpha": alpha,
+                                      "first": gg["first"], "cids": cids[:n],
+                                      "seed": seed, "tier": tier,
+                                      "maxdmg": 1})
+            Pr = 32768
+            for sh, vs in (("S1", [[Pr + Pr // 2], [3 * Pr], [3 * Pr + 5],
+                                   [100000]]),
+                           ("D2n", [[3 * Pr + 5, 70000], [5, 2 * Pr]])):
+                n = world.nfiles(sh)
+                for v in vs:
+                    gs.insert(0, {"scale": "R", "B": REAL_B, "P": Pr,
+                                  "shape": sh, "sizes_list": [v],
+                                  "cids": cids[:n], "seed": seed,
+                                  "tier": tier, "maxdmg": 1})
         # a large piece length over files of several MiB (thresholds in bytes)
         MiB = 1 << 20
         for P in ([1 << 23] if quick else [1 << 22, 1 << 23]):
@@ -700,8 +725,10 @@ class RecheckCheck:
                             first = second = None
                         finally:
                             self.write_state(root, files, changed)
+                        want_dmg, _v3, _t3 = model.recheck_model(
+                            meta, self.disk_of(files, changed), B)
                         if third is not None and third >= 100 and \
-                                self.id == "C04":
+                                want_dmg < 100 and self.id == "C04":
                             ver = model.meta_version_of(meta[b"info"])
                             found.append((
                                 f"C04|{fam}|v{ver}|same-checker-object-"
